@@ -1721,7 +1721,9 @@ def main(ctx):
                  [c for c in oks if c["id"][0] in "mu" or c["id"].startswith("witness")][:150]
                  + [c for c in oks if c["id"].startswith("bit/")][:10]
                  + [c for c in oks if c["id"].startswith("p")][:20]
-                 + sorted([c for c in oks if c["id"].startswith("b") and not c["id"].startswith("bit/")], key=lambda c: -len(c["trace"]))[:6])
+                 # burst recordings of moderate size (TLC's cost grows with the square of the length), one above 256 records
+                 + sorted([c for c in oks if c["id"].startswith("b") and not c["id"].startswith("bit/") and 60 <= len(c["trace"]) <= 700],
+                          key=lambda c: -len(c["trace"]))[:4])
         mark("selftest")
     for t in ths:
         t.join()
